@@ -308,6 +308,10 @@ def r4_bootstraps(ck, repo, nf):
                     sdefs.append(d2)
     perm = [d for d in sdefs if isinstance(d.value, ast.Call) and dotted(d.value.func).endswith("random.permutation")]
     trunc = [d for d in sdefs if d not in perm]
+    if not perm and not sdefs:
+        raise AnalysisError(f"{q}: the per-epoch index pipeline (`shuffled_indices`) is not found (unrecognised form)")
+    if not perm and not any(isinstance(x, ast.Call) and ("permutation" in dotted(x.func) or "choice" in dotted(x.func) or "shuffle" in dotted(x.func)) for d_ in sdefs if d_.value is not None for x in ast.walk(d_.value)):
+        raise AnalysisError(f"{q}: no per-epoch shuffle is visible in `{[short(d_.value, 40) for d_ in sdefs if d_.value is not None][:2]}` (unrecognised form)")
     ok = len(perm) == 1 and [dotted(a) for a in perm[0].value.args][1:] == ["bootstrap_indices"] and any(k.arg == "axis" and ast.unparse(k.value) == "1" for k in perm[0].value.keywords)
     ck.ob("R4-bootstraps", q, "permutation-per-epoch", ok, f"{short(perm[0].value) if perm else None}", "" if ok else "each epoch must visit a permutation of every member's own bootstrap row (permutation(..., bootstrap_indices, axis=1)): each index at most once per epoch", loc(mi, f))
     key_arg = dotted(perm[0].value.args[0]) if perm else ""
@@ -392,6 +396,8 @@ def r5_plans(ck, repo, nf):
     se.module_out = {}
     r = se.analyse(f, f._module, q, {"actions": ("S", "H", "A"), "trajectories": ("S", "P", "H1", "O")}, {"reward_model": Fn("lambda", ast.parse("lambda a, o: a[..., 0]", mode="eval").body, f._module, {})}, 0, {})
     ok = r == ("S",)
+    if r is None or (isinstance(r, tuple) and any(d is None for d in r)):
+        raise AnalysisError(f"{q}: result shape {r} not inferred (unrecognised form)")
     ck.ob("R5-plan-evaluation", q, "one-return-per-plan", ok, f"actions (S,H,A), trajectories (S,P,H+1,O) -> {r}", "" if ok else "the result must have one expected return per candidate plan (S,)", loc(f._module, f))
 
 
